@@ -601,7 +601,9 @@ def read_topmatter(text: str | Iterator[str]) -> dict[str, Any] | None:
     for line in text:
         if line.startswith(("---", "...")):
             break
-        top_matter.append(line.rstrip() + "\n")
+        # strip the line terminator only: trailing spaces are significant in a
+        # block scalar (e.g. a Markdown hard line break in a substitution)
+        top_matter.append(line.rstrip("\r\n") + "\n")
     try:
         metadata = yaml.safe_load("".join(top_matter))
     except (yaml.YAMLError, ValueError, RecursionError) as err:
